@@ -141,12 +141,14 @@ def _worker(payload):
 
     async def main():
         out = []
-        for sched in scheds:
+        for n, sched in enumerate(scheds):
             with C.Scratch() as d:
                 st = await storedrv.open_storage(backend, d, sync_writer=False, **({"num_concurrent_adds": 1} if backend == "sql" else {}))
                 try:
+                    # every other schedule: all connections from one address, drawing the same random token
                     log, info, errs = await relaydrv.run_connections(st, uni, NCONNS, sched, sid_map,
-                                                                     rate_limiter=_make_limiter() if with_limiter else None)
+                                                                     rate_limiter=_make_limiter() if with_limiter else None,
+                                                                     same_addr=(n % 2 == 1 and not with_limiter))
                 finally:
                     await storedrv.close_storage(st)
                 out.append((relaytrace.log_to_trace(log, info, NCONNS), log, info, errs))
